@@ -84,11 +84,11 @@ theorem handleReplyStep_sets {cs cs' : CtxSt} {id : ReqId} {ok : Bool} {more : L
       · simp only [Option.some.injEq, Prod.mk.injEq] at h
         obtain ⟨rfl, -, -⟩ := h
         refine ⟨fun k => ?_, fun pid' po' h' => ?_⟩
-        · dsimp only
+        · simp only [upd]
           split
-          · simp only [upd]; split
+          · split
             · exact uni_nodup (hl _) _
-            · exact hl k
+            · exact hl _
           · exact hl k
         · simp only [upd] at h'
           split at h'
